@@ -20,6 +20,7 @@ UNITS = {
     "iters": dict(vspec="iters.vspec"),
     "ng": dict(vspec="ng.vspec"),
     "adf": dict(vspec="adf.vspec"),
+    "bio": dict(vspec="bio.vspec"),
 }
 
 COMMON_ASSUME = [
@@ -82,26 +83,26 @@ PROPS = {
         not_decided=["add_ng silently ignores the empty nogood (size 0 has no bucket): the excluded-set equation is stated for non-empty nogoods, for the empty one the store is proved unchanged - documented corner, see DESIGN 5 C18",
                      "incomplete propagation (a bucket whose conclusions contradict each other is skipped) is consistent with all three clauses and deliberately not flagged"]),
     "C01": dict(
-        units=[("adf", "default"), ("bdd", "default")], probes=dict(quick=[("adf", "default")], thorough=[("adf", "default"), ("bdd", "default")]), inherits=["C06", "C07"], depends=[],
+        units=[("adf", "default"), ("bdd", "default"), ("bio", "default")], probes=dict(quick=[("adf", "default"), ("bio", "default")], thorough=[("adf", "default"), ("bdd", "default"), ("bio", "default")]), inherits=["C06", "C07"], depends=[],
         assumptions=[COMMON_ASSUME[0], COMMON_ASSUME[1], COMMON_ASSUME[2], COMMON_ASSUME[3], COMMON_ASSUME[4],
                      "the bdd unit's functions are imported by contract only (external_body with the contract text of contracts/bdd.vspec); their bodies are verified in the bdd unit, which this check also runs",
                      "the ADF's acceptance conditions are handles of the shared store (Adf::wf(): bdd.wf() and ac[i] < nodes.len()); established by from_parser (C09) and preserved by every function here"],
-        explanation="lowered real text of Adf::grounded_internal / grounded: post-1 den(r[i]) == cof(den(in[i]), r, n) (every entry is its condition restricted by all decided entries of the result), a ghost rank derivation (each decided entry is a constant once the entries of smaller rank are substituted), termination (n - t_vals decreases); sp::lemma_grounded_is_lfp (canonicity + induction on the rank) turns this into the postcondition is_lfp(dens(ac), tvs(r)): r is a fixpoint of the three-valued consequence operator Gamma and is below every fixpoint; the least fixpoint is unique (lemma_lfp_unique), every other statement is undecided",
-        not_decided=["biodivine and hybrid back-ends (adfbiodivine::Adf::grounded_internal over biodivine_lib_bdd, hybrid_step): not under contract yet - the native back-end is proved against the abstract least fixpoint, 'same on all back-ends' would follow from the same contract on the stubbed biodivine API plus C09's bridge"]),
+        explanation="biodivine back-end (unit bio, relative to the assumed biodivine stub: bio_den, canonical constants, restrict = cofactor by a (variable,value) list): adfbiodivine::Adf::grounded_internal / grounded / var_list satisfy the same contract is_lfp(bio_dens(ac), tvs(result)) with the same ghost rank derivation and termination (the number of decided entries grows while truth_extention is set). Native back-end: lowered real text of Adf::grounded_internal / grounded: post-1 den(r[i]) == cof(den(in[i]), r, n) (every entry is its condition restricted by all decided entries of the result), a ghost rank derivation (each decided entry is a constant once the entries of smaller rank are substituted), termination (n - t_vals decreases); sp::lemma_grounded_is_lfp (canonicity + induction on the rank) turns this into the postcondition is_lfp(dens(ac), tvs(r)): r is a fixpoint of the three-valued consequence operator Gamma and is below every fixpoint; the least fixpoint is unique (lemma_lfp_unique), every other statement is undecided",
+        not_decided=["hybrid back-end = bridge (C09) of the biodivine result followed by the native procedure on the already restricted vector: the lemma 'lfp of Gamma over cof(ac, g) for g below lfp equals lfp' is argued in DESIGN, not machine checked", "'same on all back-ends' is equality of the abstract least fixpoint of dens(ac) resp. bio_dens(ac); that the two vectors of functions coincide is C09"]),
     "C02": dict(
-        units=[("adf", "default"), ("bdd", "default"), ("iters", "default")], probes=dict(quick=[("adf", "default")], thorough=[("adf", "default")]), inherits=["C06", "C07", "C01", "C20"], depends=[],
+        units=[("adf", "default"), ("bdd", "default"), ("iters", "default"), ("bio", "default")], probes=dict(quick=[("adf", "default"), ("bio", "default")], thorough=[("adf", "default"), ("bio", "default")]), inherits=["C06", "C07", "C01", "C20"], depends=[],
         assumptions=[COMMON_ASSUME[0], COMMON_ASSUME[1], COMMON_ASSUME[2], COMMON_ASSUME[3], COMMON_ASSUME[4],
                      "the bdd unit's functions are imported by contract only (external_body with the contract text of contracts/bdd.vspec); their bodies are verified in the bdd unit, which this check also runs",
                      "the ADF's acceptance conditions are handles of the shared store (Adf::wf(): bdd.wf() and ac[i] < nodes.len()); established by from_parser (C09) and preserved by every function here"] + ["rule C: the closure passed to .filter(..) in Adf::complete is lifted to Adf::complete__c0 (captured variables become parameters, body verbatim); the body of complete is checked syntactically to be `ThreeValuedInterpretationsIterator::new(&self.grounded()).filter(c0)` (shape obligation); std's Iterator::filter yields exactly the elements satisfying the predicate, in order (ASSUMED)"],
-        explanation="complete__c0(ac, v) <==> is_fix(dens(ac), tvs(v)): v is a fixpoint of Gamma (a statement is true/false in v iff its condition is valid/unsatisfiable under v, undecided otherwise) - via post cof(den(ac[i]), v) per entry, canonicity (lemma_tvo_gamma) and Term::compare_inf's truth table. Composition (pure lemmas): the candidates are exactly the refinements of the grounded interpretation, each once, grounded itself first (C20); every fixpoint refines the least fixpoint (lemma_fix_refines_lfp, C01); the grounded interpretation is a fixpoint (lemma_lfp_is_fix) so it passes the filter and is listed first",
-        not_decided=["biodivine back-end's complete()", "laziness / interleaving of the returned iterator with other uses of the ADF (excluded by the borrow checker: the iterator holds &mut self)"]),
+        explanation="biodivine back-end: the lifted filter closure of adfbiodivine::Adf::complete <==> is_fix(bio_dens(ac), tvs(v)) (var_list_from_term, restrict = cofactor, Term::cmp_information). Native: complete__c0(ac, v) <==> is_fix(dens(ac), tvs(v)): v is a fixpoint of Gamma (a statement is true/false in v iff its condition is valid/unsatisfiable under v, undecided otherwise) - via post cof(den(ac[i]), v) per entry, canonicity (lemma_tvo_gamma) and Term::compare_inf's truth table. Composition (pure lemmas): the candidates are exactly the refinements of the grounded interpretation, each once, grounded itself first (C20); every fixpoint refines the least fixpoint (lemma_fix_refines_lfp, C01); the grounded interpretation is a fixpoint (lemma_lfp_is_fix) so it passes the filter and is listed first",
+        not_decided=["ThreeValuedInterpretationsIterator::from_bdd (Term::from per element, then new) is covered through Term::from__bio and C20's new; laziness / interleaving of the returned iterator with other uses of the ADF (excluded by the borrow checker: the iterator holds &mut self)"]),
     "C03": dict(
-        units=[("adf", "default"), ("bdd", "default"), ("iters", "default")], probes=dict(quick=[("adf", "default")], thorough=[("adf", "default")]), inherits=["C06", "C07", "C01", "C20"], depends=[],
+        units=[("adf", "default"), ("bdd", "default"), ("iters", "default"), ("bio", "default")], probes=dict(quick=[("adf", "default"), ("bio", "default")], thorough=[("adf", "default"), ("bio", "default")]), inherits=["C06", "C07", "C01", "C20"], depends=[],
         assumptions=[COMMON_ASSUME[0], COMMON_ASSUME[1], COMMON_ASSUME[2], COMMON_ASSUME[3], COMMON_ASSUME[4],
                      "the bdd unit's functions are imported by contract only (external_body with the contract text of contracts/bdd.vspec); their bodies are verified in the bdd unit, which this check also runs",
                      "the ADF's acceptance conditions are handles of the shared store (Adf::wf(): bdd.wf() and ac[i] < nodes.len()); established by from_parser (C09) and preserved by every function here"] + ["rule C: the closures of stable / stable_with_prefilter / stable_bdd_representation are lifted (bodies verbatim) and the chain shapes `TwoValuedInterpretationsIterator::new(&grounded).map(c0).filter(c1).map(c2)` resp. `candidates.into_iter().filter(c0).collect()` are checked syntactically; std map/filter/collect meaning ASSUMED", "biodivine's stable_model_candidates (sat_valuations of the rewriting) is outside this unit: assumed to list every two-valued model"],
-        explanation="Adf::stability_check(v) <==> is_stable(dens(ac), v) with is_stable(fs,v) := is_lfp(reduct(fs,v), tvs(v)), reduct = every condition with v's false statements replaced by falsum; same for the lifted closures: stable__c0 returns (v, lfp of the reduct), c1 is pairs_agree, and pairs_agree(c0(v)) <==> is_stable (lemma_pairs_stable, uniqueness of the least fixpoint); the pre-filter variant: the extra test is is_fix(Gamma) which stability implies for two-valued v (lemma_stable_is_fix), the dummy pair ([BOT],[TOP]) is rejected by the filter; stable_bdd_representation's filter <==> is_stable. Candidates: two-valued completions of grounded (C20), every stable model refines grounded (stable => fixpoint => refines lfp). No failing precondition / panic path: an ADF without stable models yields an empty result",
-        not_decided=["the biodivine back-end's stable() variants and the rewriting (stm_rewriting / stable_representation) are not under contract yet"]),
+        explanation="biodivine back-end: the lifted filter closures of adfbiodivine::Adf::stable and stable_bdd_representation <==> is_stable(bio_dens(ac), v) (reduction list = false statements, reduct by restrict, grounded_internal of the reduct, lemma_pairs_stable). Native: Adf::stability_check(v) <==> is_stable(dens(ac), v) with is_stable(fs,v) := is_lfp(reduct(fs,v), tvs(v)), reduct = every condition with v's false statements replaced by falsum; same for the lifted closures: stable__c0 returns (v, lfp of the reduct), c1 is pairs_agree, and pairs_agree(c0(v)) <==> is_stable (lemma_pairs_stable, uniqueness of the least fixpoint); the pre-filter variant: the extra test is is_fix(Gamma) which stability implies for two-valued v (lemma_stable_is_fix), the dummy pair ([BOT],[TOP]) is rejected by the filter; stable_bdd_representation's filter <==> is_stable. Candidates: two-valued completions of grounded (C20), every stable model refines grounded (stable => fixpoint => refines lfp). No failing precondition / panic path: an ADF without stable models yields an empty result",
+        not_decided=["the rewriting (stm_rewriting / stable_representation / stable_model_candidates) that produces the candidates of the two single-formula variants is not under contract: candidates are assumed to contain every two-valued model; their filter (<==> is_stable) is proved, so nothing is invented, completeness of these two variants rests on that assumption"]),
     "C09": dict(
         units=[("adf", "default"), ("bdd", "default")], probes=dict(quick=[("adf", "default")], thorough=[("adf", "default")]), inherits=["C07", "C06"], depends=[],
         assumptions=[COMMON_ASSUME[0], COMMON_ASSUME[1], COMMON_ASSUME[2], COMMON_ASSUME[4],
